@@ -180,7 +180,7 @@ func c33HuffBits(s []byte) int {
 func c33HuffDecode(v []byte) (out []byte, why string) {
 	out = []byte{}
 	cur := int32(0)
-	pend := 0      // bits consumed since the last complete symbol
+	pend := 0       // bits consumed since the last complete symbol
 	allOnes := true // those bits are all ones
 	for _, b := range v {
 		for i := 7; i >= 0; i-- {
